@@ -57,7 +57,8 @@ DEFECTS = ["missing-hostname", "missing-port", "missing-fingerprint", "missing-f
 def import_op(draw):
     entries = draw(st.lists(pin_st(), min_size=1, max_size=5))
     entries = list({(h, p): [h, p, f] for h, p, f in entries}.values())
-    defect = draw(st.sampled_from([None, None] + DEFECTS + ["broken-toml", "missing-file", "no-hosts-section", "hosts-not-table"]))
+    defect = draw(st.sampled_from([None, None] + DEFECTS + ["broken-toml", "missing-file", "no-hosts-section", "hosts-not-table",
+                                                            "path-is-directory"]))
     return {"op": "import", "merge": draw(st.booleans()), "entries": entries, "defect": defect,
             "pos": draw(st.integers(0, len(entries))), "cb": draw(st.sampled_from([None, True, False, "raise-1", "raise-2"]))}
 
@@ -67,6 +68,7 @@ def op_st():
         import_op(), import_op(),
         pin_st().map(lambda t: {"op": "trust", "host": t[0], "port": t[1], "cert": "ec-a"}),
         pin_st().map(lambda t: {"op": "revoke", "host": t[0], "port": t[1]}),
+        pin_st().map(lambda t: {"op": "verify", "host": t[0], "port": t[1], "cert": "ec-a"}),
         host_st().map(lambda h: {"op": "revoke-host", "host": h}),
         st.just({"op": "clear"}),
         st.just({"op": "export-roundtrip"}),
@@ -183,6 +185,9 @@ def _toml_for(op, d) -> Path:
             f.write(b"\n[hosts\nthis is = = not toml\n")
     if defect == "missing-file":
         p.unlink()
+    if defect == "path-is-directory":  # an I/O error while reading the import file
+        p.unlink()
+        p.mkdir()
     return p
 
 
@@ -204,11 +209,13 @@ def model_apply(model: dict, op) -> tuple[dict, bool]:
         return m, False
     if o == "clear":
         return {}, False
+    if o == "verify":
+        return m, False  # only last_seen may change
     if o == "export-roundtrip":
         return m, False
     # import
     defect = op["defect"]
-    if defect in ("broken-toml", "missing-file", "no-hosts-section", "hosts-not-table"):
+    if defect in ("broken-toml", "missing-file", "no-hosts-section", "hosts-not-table", "path-is-directory"):
         return m, True
     if not op["merge"]:
         m = {}
@@ -280,6 +287,8 @@ def apply_real(db, op, d):
         db.revoke_by_hostname(op["host"])
     elif o == "clear":
         db.clear()
+    elif o == "verify":
+        db.verify(op["host"], op["port"], x509.load_der_x509_certificate(certs.get(op["cert"]).der))
     elif o == "import":
         p = _toml_for(op, d)
         cb = op["cb"]
@@ -422,6 +431,7 @@ def enum_faults(tier):
         {"op": "revoke", "host": "::1", "port": 1965},
         {"op": "revoke-host", "host": "example.org"},
         {"op": "clear"},
+        {"op": "verify", "host": "example.org", "port": 1965, "cert": "ec-a"},
     ]
     if tier == "thorough":
         for pos in range(3):
